@@ -29,7 +29,7 @@ func (c03) Plan(tier string) wk.Plan {
 	}
 	return wk.Plan{
 		Level: "exploration", Cases: n, Chunk: 50, Configs: single("seq", 16), CaseBudget: 60,
-		Rule:        "case = one random operator table (1..16 binary spellings over a symbol alphabet incl. multi-character spellings that are prefixes of one another; 0..3 prefix operators, each either also binary - at any position incl. first and last - or pure prefix; optional text aliases; optional if/try keywords) x 40 random expression trees (binary, prefix, calls, index, member, method call, list/map literal, closures, if/try) each rendered fully parenthesised, minimally parenthesised by the property's rules and with random redundant parentheses -> parsed AST must equal the tree; then single-token deletions, insertions and replacements (by operators, brackets, separators, keywords or another token of the expression) of the minimal rendering: the reference parser decides accept/reject (and the tree), the library must agree. A fixed corpus of tables (prefix operator = first/last binary operator) runs first. Non-trivial = expression with >= 2 distinct priorities or a prefix operator; distinct by (table, text).",
+		Rule:        "case = one random operator table (1..16 binary spellings over a symbol alphabet incl. multi-character spellings that are prefixes of one another and spellings outside ASCII; 0..3 prefix operators, each either also binary - at any position incl. first and last - or pure prefix; optional text aliases; optional if/try keywords) x 40 random expression trees (binary, prefix, calls, index, member, method call, list/map literal, closures, if/try) each rendered fully parenthesised, minimally parenthesised by the property's rules and with random redundant parentheses -> parsed AST must equal the tree; then single-token deletions, insertions and replacements (by operators, brackets, separators, keywords or another token of the expression) of the minimal rendering: the reference parser decides accept/reject (and the tree), the library must agree. A fixed corpus of tables (prefix operator = first/last binary operator) runs first. Non-trivial = expression with >= 2 distinct priorities or a prefix operator; distinct by (table, text).",
 		Floor:       2000,
 		Assumptions: []string{"tokens are separated by blanks (lexer corner cases are C15's subject)", "the reference parser encodes the accepted trailing comma in argument/list/map lists; string literals are not used (no string converter configured)"},
 	}
@@ -43,7 +43,9 @@ type optable struct {
 	keyword bool
 }
 
-var opAlphabet = []string{"+", "-", "*", "/", "%", "^", "<", ">", "&", "|", "~", "?", "@", "#", "$", "!", "=", "<=", ">=", "<<", ">>", "<<<", "!=", "&&", "||", "**", "=>", "+-", "<>", "~=", "@@", "%%", "?:", "|>", "<|", "^^", "=="}
+var opAlphabet = []string{"+", "-", "*", "/", "%", "^", "<", ">", "&", "|", "~", "?", "@", "#", "$", "!", "=", "<=", ">=", "<<", ">>", "<<<", "!=", "&&", "||", "**", "=>", "+-", "<>", "~=", "@@", "%%", "?:", "|>", "<|", "^^", "==",
+	// spellings outside ASCII (multi-byte in UTF-8), alone and mixed with ASCII characters
+	"≤", "≥", "≠", "∧", "∨", "¬", "<≥", "∘∘", "→", "≤≤", "±"}
 
 func genTable(r *rand.Rand) *optable {
 	t := &optable{unPos: map[string]int{}, alias: map[string]string{}}
